@@ -519,4 +519,36 @@ theorem edgeAbsID_eq_edgeText (src dst : List Str) (sa da : Bool) (idx : Nat) :
   | nil => simp [edgeAbsID, edgeText, edgeBody, edgeTail, hc]
   | cons a r => simp [edgeAbsID, edgeText, edgeBody, edgeTail, hc]
 
+/-- `Edge.AbsID`'s loop cuts the same number of leading IDs from both chains; they are pairwise EqualFold,
+    and both remainders keep at least one ID -/
+theorem trimCommon_spec : ∀ (a b : List Str), a ≠ [] → b ≠ [] →
+    ∃ k, k < a.length ∧ k < b.length ∧ (trimCommon a b).1 = a.take k ∧ (trimCommon a b).2.1 = a.drop k ∧
+      (trimCommon a b).2.2 = b.drop k ∧ ∀ i, i < k → ∀ x y, a[i]? = some x → b[i]? = some y → equalFoldIds x y = true := by
+  intro a b
+  fun_induction trimCommon a b with
+  | case1 a a2 as b b2 bs hf r ih =>
+    intro _ _
+    obtain ⟨k, h1, h2, h3, h4, h5, h6⟩ := ih (by simp) (by simp)
+    refine ⟨k + 1, by simp at h1 ⊢; omega, by simp at h2 ⊢; omega, by simp [r, h3], by simp [r, h4], by simp [r, h5], ?_⟩
+    intro i hi x y hx hy
+    cases i with
+    | zero => simp at hx hy; subst hx; subst hy; exact hf
+    | succ j => exact h6 j (by omega) x y (by simpa using hx) (by simpa using hy)
+  | case2 a a2 as b b2 bs hf =>
+    intro _ _
+    exact ⟨0, by simp, by simp, by simp, by simp, by simp, by intro i hi; omega⟩
+  | case3 as bs hno =>
+    intro ha hb
+    refine ⟨0, ?_, ?_, by simp, by simp, by simp, by intro i hi; omega⟩
+    · cases as with
+      | nil => exact absurd rfl ha
+      | cons _ _ => simp
+    · cases bs with
+      | nil => exact absurd rfl hb
+      | cons _ _ => simp
+
+theorem segTexts_of_names : ∀ (names : List Str), (∀ n ∈ names, NameOk n) → SegTexts names (names.map objID)
+  | [], _ => .nil
+  | n :: rest, h => .cons (fmtKey_segText (h n (by simp))) (segTexts_of_names rest (fun x hx => h x (by simp [hx])))
+
 end D2V.Quote
